@@ -185,6 +185,23 @@ fn native() -> BoxedStrategy<NativeVal> {
 fn claim(depth: u32) -> BoxedStrategy<ClaimSpec> {
   prop_oneof![
     6 => (key(), gen::json_value(depth)).prop_map(|(k, v)| ClaimSpec::Custom(k, v)),
+    1 => (key(), gen::text()).prop_map(|(k, t)| ClaimSpec::Custom(k, Value::String(t.render()))),
+    // the value is itself an object whose only (or first) member carries the claim's own key
+    2 => (key(), gen::json_value(2), 0u8..4).prop_map(|(k, v, shape)| {
+      let inner = match shape {
+        0 => serde_json::json!({ k.clone(): v }),
+        1 => serde_json::json!({ k.clone(): { k.clone(): v } }),
+        2 => serde_json::json!({ k.clone(): v, "other": 1 }),
+        _ => serde_json::json!([{ k.clone(): v }]),
+      };
+      if shape % 2 == 0 { ClaimSpec::Custom(k, inner) } else { ClaimSpec::Any(k, inner) }
+    }),
+    // whatever string a time-claim constructor accepts must come back verbatim (iso8601 ignores what follows the date-time)
+    2 => (0u8..3, 0u8..8).prop_map(|(which, deco)| {
+      let t = format!("2039-01-01T00:00:00+00:00{}", ["", "\n", " ", "\t", "\r\n", " trailing", "Z", "\u{a0}"][deco as usize]);
+      match which { 0 => ClaimSpec::Exp(t), 1 => ClaimSpec::NbfOwned(t), _ => ClaimSpec::Iat(t) }
+    }),
+    1 => (gen::boundary(gen::BOUNDARY_LENS.len()), gen::json_leaf()).prop_filter("non-empty key", |(t, _)| !t.render().is_empty()).prop_map(|(t, v)| ClaimSpec::CustomOwned(t.render(), v)),
     3 => (key(), gen::json_value(depth)).prop_map(|(k, v)| ClaimSpec::CustomOwned(k, v)),
     1 => key().prop_map(ClaimSpec::CustomKeyOnly),
     4 => (key(), native()).prop_map(|(k, v)| ClaimSpec::Native(k, v)),
